@@ -358,6 +358,17 @@ theorem selector_pointwise (labels : List L) (xs : List X) (sel : L → Option (
   intro l hl
   simp only [List.append_nil, List.mem_reverse, List.mem_filter, List.mem_eraseDups, Bool.not_eq_true', hl, true_and]
 
+/-- picking the points of a region by equality is what `selectorEval` does -/
+theorem selectorEvalBy_eq (labels : List L) (xs : List X) (sel : L → Option (X → Y)) (isEmpty : L → Bool) (undef : Y) :
+    selectorEvalBy (fun a b => decide (a = b)) labels xs sel isEmpty undef = selectorEval labels xs sel isEmpty undef := rfl
+
+/-- picking them with a tolerance is not: two slice labels 301002 and 301004 are "close" at relative tolerance 1e-5, the second
+    region's transform overwrites the first region's points - the per-point specification is lost -/
+example :
+    let sel : Rat → Option (Rat → Rat) := fun l => if l = 301002 then some (· + 1) else if l = 301004 then some (· + 2) else none
+    selectorEvalBy (fun a b => isClose (1 / 100000000) a b) [301002, 301004] [10, 20] sel (· == 0) 0 = [12, 22] ∧
+    selectorEval [301002, 301004] [10, 20] sel (· == 0) 0 = [11, 22] := by decide +kernel
+
 /-- **set_input_lookup.** Looking up one region's transform returns the registered one, and an
     unknown region is reported, not answered. -/
 theorem set_input_lookup {T} (table : List (L × T)) (rid : L) :
